@@ -2,6 +2,8 @@ package c13
 
 import (
 	"crypto/ecdsa"
+	"encoding/asn1"
+	"math/big"
 
 	"github.com/emmansun/gmsm/ecdh"
 	"github.com/emmansun/gmsm/sm2"
@@ -78,7 +80,16 @@ func epsSM2() []*epT {
 				return
 			}},
 		{name: "sm2.RecoverPublicKeysFromSM2Signature", small: true, fast: true, der: true,
-			seeds: []seedT{sigSeed("sm2sig-a")},
+			// the second seed is a pair anyone can construct for the fixed digest: r = x([s]G) + e, so that one of the
+			// two candidate points equals [s]G and "its" key is the point at infinity
+			seeds: []seedT{sigSeed("sm2sig-a"), {name: "sm2sig-recover-candidate-at-infinity", hostile: true, gen: func() []byte {
+				n := sm2.P256().Params().N
+				sv := big.NewInt(7)
+				x, _ := sm2.P256().ScalarBaseMult(sv.Bytes())
+				r := new(big.Int).Add(x, new(big.Int).SetBytes(hash))
+				r.Mod(r, n)
+				return must(asn1.Marshal(struct{ R, S *big.Int }{r, sv}))
+			}}},
 			call: func(x *cx, in []byte) (ok bool) {
 				x.g("sm2.RecoverPublicKeysFromSM2Signature", func() {
 					pubs, err := sm2.RecoverPublicKeysFromSM2Signature(hash, in)
